@@ -262,7 +262,8 @@ def rand_breaker(rng):
     elif r_ < 0.2 and ct:
         trip_cfg = []  # trip only through class thresholds
         trip = sorted(ct)
-    window, recovery = rng.choice([(1.0, 5.0), (10.0, 5.0), (5.0, 5.0), (2.0, 1.0)])
+    # seconds to a minute, and the minutes-to-a-day timeouts of services that recover slowly
+    window, recovery = rng.choice([(1.0, 5.0), (10.0, 5.0), (5.0, 5.0), (2.0, 1.0), (1.0, 5.0), (10.0, 5.0), (60.0, 600.0), (3600.0, 900.0), (30.0, 86400.0)])
     pre = []
     init = rng.choice(["closed", "closed", "near", "open", "expired", "halfopen", "probing"])
     th = rng.randint(1, 3)
@@ -286,6 +287,7 @@ def rand_breaker(rng):
         "effective_trip_on": sorted(set(trip) | set(ct)),
         "class_thresholds": ct,
         "pre": pre,
+        "epoch": rng.choice([0, 0, 0, 0, 0, 2.0**20, 2.0**24]),
     }
 
 
